@@ -42,10 +42,13 @@ package ketoapi
 //@   ensures[C13] nil-subject-is-an-error: result1 == nil ==> (r.SubjectID != nil || r.SubjectSet != nil)
 //@   ensures[C13] error-class: result1 != nil ==> errstatus(result1) == 400
 
+// FromProto reads the subject set through the nil-safe generated getters: it does not rely on
+// the inner message of a present oneof wrapper being non-nil (weaker than T8)
+//@ spec wfwiresubjectwrapper(s *rts.Subject) bool = s != nil ==> (istype(s.Ref, *rts.Subject_Set) ==> as(s.Ref, *rts.Subject_Set) != nil) && (istype(s.Ref, *rts.Subject_Id) ==> as(s.Ref, *rts.Subject_Id) != nil)
 //@ func (*RelationTuple).FromProto
 //@   props C13 C18 C08
 //@   requires[C13] proto-present: proto != nil
-//@   requires wfwiresubject(proto.Subject)
+//@   requires wfwiresubjectwrapper(proto.Subject)
 //@   modifies nothing
 //@   ensures result != nil && fresh(result)
 
